@@ -138,6 +138,11 @@ def rule_grammar(ctx):
         elif tpl.startswith('"'):
             arms['aspa_first'] = filled
     tail = [x for x in ap_lits if x.startswith(']')]
+    if 'aspa_next' not in arms and 'aspa_first' in arms:
+        # the separator written on its own (`if idx > 0 { vec.extend_from_slice(b", ") }`) before the common item template
+        seps = [x for x in ap_lits if re.match(r'^\s*,\s*$', x)]
+        if len(seps) == 1:
+            arms['aspa_next'] = seps[0] + arms['aspa_first']
     ctx.check(set(arms) == {'origin', 'key', 'aspa_head', 'aspa_first', 'aspa_next'} and len(tail) == 1, 'gram', 'payload-templates',
               'all payload templates found', 'payload templates found: %s tail %s' % (sorted(arms), tail))
     if not (set(arms) == {'origin', 'key', 'aspa_head', 'aspa_first', 'aspa_next'} and len(tail) == 1):
